@@ -246,6 +246,14 @@ func fill(r *wh.Rng, v reflect.Value, depth int) {
 			}
 			v.Set(m)
 		}
+	case reflect.Interface:
+		// an untyped member: only what encoding/json itself puts there when it decodes (nil, bool, string, float64,
+		// []interface{}, map[string]interface{}), so that the plain round trip is the identity on it
+		if v.NumMethod() == 0 {
+			if u := genUntyped(r, depth); u != nil {
+				v.Set(reflect.ValueOf(u))
+			}
+		}
 	case reflect.Ptr:
 		if r.Intn(3) == 0 {
 			return
@@ -264,4 +272,43 @@ func fill(r *wh.Rng, v reflect.Value, depth int) {
 			fill(r, v.Index(i), depth+1)
 		}
 	}
+}
+
+// genUntyped: a value of the fixed-point set of encoding/json for interface{} targets. Slices and maps inside an
+// interface are never nil (a typed nil would encode as null and come back as an untyped nil).
+func genUntyped(r *wh.Rng, depth int) interface{} {
+	k := r.Intn(7)
+	if depth > 3 && k > 4 {
+		k = r.Intn(5)
+	}
+	switch k {
+	case 0:
+		return nil
+	case 1:
+		return r.Bool()
+	case 2:
+		return genStr(r)
+	case 3, 4:
+		// numbers: integral ones (ids, counters) and any finite float
+		switch r.Intn(3) {
+		case 0:
+			return float64(r.Intn(100000))
+		case 1:
+			return float64(int64(r.Next()>>11)) * 4 // beyond 2^53: exactly representable, prints with an exponent or all digits
+		}
+		return genFloat(r, 64)
+	case 5:
+		n := r.Intn(4)
+		l := make([]interface{}, 0, n)
+		for i := 0; i < n; i++ {
+			l = append(l, genUntyped(r, depth+1))
+		}
+		return l
+	}
+	n := r.Intn(4)
+	m := make(map[string]interface{}, n)
+	for i := 0; i < n; i++ {
+		m[genStr(r)] = genUntyped(r, depth+1)
+	}
+	return m
 }
